@@ -107,15 +107,15 @@ Section Sound.
     forall st, incl (hoists st) (hoists (fst (core e st))) /\
                (hv_ok (hoists (fst (core e st))) hv ev1 -> rel (snd (core e st)) e).
 
-  Lemma rel_literal : forall v e, eval ev0 e = eval ev1 e -> rel {| g_val := v; g_pas := None; g_calc := [] |} e.
-  Proof. intros v e H. unfold rel. rewrite upres_eq. cbn. rewrite H. constructor. Qed.
+  Lemma rel_literal : forall v j e, eval ev0 e = eval ev1 e -> rel {| g_val := v; g_pas := None; g_calc := []; g_js := j |} e.
+  Proof. intros v j e H. unfold rel. rewrite upres_eq. cbn. rewrite H. constructor. Qed.
 
   (* results without a path whose sub-results were all closed with end_path *)
-  Lemma rel_closed : forall v calc e,
+  Lemma rel_closed : forall v calc j e,
     (any_marked calc = false -> eval ev0 e = eval ev1 e) ->
-    rel {| g_val := v; g_pas := None; g_calc := calc |} e.
+    rel {| g_val := v; g_pas := None; g_calc := calc; g_js := j |} e.
   Proof.
-    intros v calc e H. unfold rel. rewrite upres_eq. cbn [g_pas g_calc].
+    intros v calc j e H. unfold rel. rewrite upres_eq. cbn [g_pas g_calc].
     apply covers_if_marked. intros Hm. rewrite (H Hm). constructor.
   Qed.
 
@@ -177,9 +177,9 @@ Section Sound.
     apply eval_un_congr. eapply rel_unmarked_eq; eauto.
   Qed.
 
-  Lemma incl_emit_hoist : forall st i e t, incl (hoists st) (hoists (emit_hoist st i e t)).
+  Lemma incl_emit_hoist : forall st i e t j, incl (hoists st) (hoists (emit_hoist st i e t j)).
   Proof. intros. cbn. apply incl_appl, incl_refl. Qed.
-  Lemma in_emit_hoist : forall st i e t, In (i, e) (hoists (emit_hoist st i e t)).
+  Lemma in_emit_hoist : forall st i e t j, In (i, e) (hoists (emit_hoist st i e t j)).
   Proof. intros. cbn. apply in_or_app. right. now left. Qed.
 
   Lemma good_bin_plain : forall op l r, op <> BNullish -> good l -> good r -> good (EBin op l r).
@@ -211,7 +211,7 @@ Section Sound.
     assert (Hp : hoists st0 = hoists st) by (unfold gen_private in Ep; inversion Ep; reflexivity).
     destruct (sub_call l L_Cond st0 IHl) as [Hi1 Hr1].
     destruct (wrapg L_Cond (pg_level l) (core l st0)) as [st1 ol]. cbn [fst snd] in *.
-    set (st2 := emit_hoist st1 ident l (g_val (end_path ol))).
+    set (st2 := emit_hoist st1 ident l (g_val (end_path ol)) (g_js (end_path ol))).
     destruct (sub_call r L_Cond st2 IHr) as [Hi2 Hr2].
     destruct (wrapg L_Cond (pg_level r) (core r st2)) as [st3 or]. cbn [fst snd] in *.
     assert (Hi12 : incl (hoists st1) (hoists st3)).
@@ -231,7 +231,7 @@ Section Sound.
     assert (Hp : hoists st0 = hoists st) by (unfold gen_private in Ep; inversion Ep; reflexivity).
     destruct (sub_call k L_Cond st0 IHk) as [Hi1 Hr1].
     destruct (wrapg L_Cond (pg_level k) (core k st0)) as [st1 ok]. cbn [fst snd] in *.
-    set (st2 := emit_hoist st1 ident k (g_val (end_path ok))).
+    set (st2 := emit_hoist st1 ident k (g_val (end_path ok)) (g_js (end_path ok))).
     destruct (sub_call o L_Cond st2 IHo) as [Hi2 Hr2].
     destruct (wrapg L_Cond (pg_level o) (core o st2)) as [st3 oo]. cbn [fst snd] in *.
     assert (Hi12 : incl (hoists st1) (hoists st3)).
@@ -260,7 +260,7 @@ Section Sound.
     assert (Hp : hoists st0 = hoists st) by (unfold gen_private in Ep; inversion Ep; reflexivity).
     destruct (sub_call c L_Cond st0 IHc) as [Hi1 Hr1].
     destruct (wrapg L_Cond (pg_level c) (core c st0)) as [st1 oc]. cbn [fst snd] in *.
-    set (st2 := emit_hoist st1 ident c (g_val (end_path oc))).
+    set (st2 := emit_hoist st1 ident c (g_val (end_path oc)) (g_js (end_path oc))).
     destruct (sub_call t L_Cond st2 IHt) as [Hi2 Hr2].
     destruct (wrapg L_Cond (pg_level t) (core t st2)) as [st3 ot]. cbn [fst snd] in *.
     destruct (sub_call f L_Cond st3 IHf) as [Hi3 Hr3].
